@@ -39,6 +39,10 @@ func vcModElems(n int, p interface{}) {}
 // vcMapAllU64(m, f): f holds for the value stored under every key present in m.
 func vcMapAllU64(m map[string]uint64, f func(uint64) bool) bool { return true }
 
+// vcCalls("callee"): the number of calls of the callee (named as in `atcall`) made so far by
+// the function the clause belongs to, which must declare `counts callee`.
+func vcCalls(callee string) int { return 0 }
+
 // vcHasKey(m, k): k is present in m.
 func vcHasKey(m map[string]uint64, k string) bool { _, ok := m[k]; return ok }
 
